@@ -43,6 +43,11 @@ by the `cluster` suite's fair suffix and its monitors, not mechanised.
   first member in staleness order strictly advances — the potential summed over all members strictly
   increases with every productive reply, so competing members cannot undo each other's progress.
 
+* `C01_ack_advances_receiver`, `C01_synack_advances_initiator`, `C01_handshake_end_to_end`: the same
+  through `process_message` (own heartbeat, heartbeat reports for the peer's digest, `process_delta`),
+  with the digest the initiator really sends (`digestEntry_computeDigest`): the only hypothesis about
+  the initiator is that it holds the member and has not quarantined it — KF-3 is exactly its failure.
+
 * `C01_connected_sweep_progress`, `C01_connected_converges`: the same for sweeps whose handshakes only
   connect every holder to the owner through other holders (`ConnectedFromOwner`: relay by third
   parties): a holder that already has the owner's max version refuses every later delta
@@ -1103,5 +1108,189 @@ theorem C01_reply_advances_receiver (C : Compressor) (cs : ClusterState) (hcs : 
   cases happ'
   exact ⟨r1, hr', hlt⟩
 
+
+/-! ### The handlers end to end -/
+section EndToEnd
+open Node
+
+
+/-- **C01 (the ACK step, end to end).** The sender's reply (computed by the real sender from the
+receiver's digest) is processed by the receiver's `process_message` as an ACK: the handler does not
+abort, no copy of another member goes down, and the receiver's copy of the first stale member — any
+member but the receiver itself, held by the receiver as its digest said — strictly advances. -/
+theorem C01_ack_advances_receiver (C : Compressor) (cs : ClusterState) (hcs : WFCluster cs)
+    (digest : Digest) (mtu : Nat) (h100 : 100 ≤ mtu) (hmax : mtu ≤ 65539) (sched order : List Id)
+    (sn : StaleNode) (rest : List StaleNode)
+    (hs : sortStale order (staleNodes cs digest sched) = sn :: rest)
+    (hwf : WFOp (.node sn.id sn.state.lastGc sn.fromExcl))
+    (hh : opLen (.node sn.id sn.state.lastGc sn.fromExcl) ≤ 16384)
+    (hfit : opLen (.node sn.id sn.state.lastGc sn.fromExcl) + firstItemLen sn + 7 ≤ mtu)
+    (R : Node) (r : NodeState) (hne : sn.id ≠ R.cfg.selfId) (hrc : R.cs.nodeState sn.id = some r)
+    (hr : digestEntry sn.id digest = (r.lastGc, r.maxVersion)) (now : Nat) (order' : List Id) :
+    ∃ delta R' eff, computeDelta C cs digest mtu sched order = .ok delta ∧
+      R.processMessage C (.ack delta) now order' = .ok (R', eff) ∧
+      (∀ i s, i ≠ R.cfg.selfId → R.cs.nodeState i = some s →
+          ∃ s', R'.cs.nodeState i = some s' ∧ frontierLe s.frontier s'.frontier) ∧
+      ∃ r', R'.cs.nodeState sn.id = some r' ∧ frontierLt r.frontier r'.frontier := by
+  have hrc' : R.updateSelfHeartbeat.cs.nodeState sn.id = some r := by
+    rw [nodeState_updateSelfHeartbeat_ne R sn.id hne]; exact hrc
+  obtain ⟨delta, rc', reset, evs, hd, happ, hmono, _, r', hr', hlt⟩ :=
+    C01_reply_advances_receiver C cs hcs digest mtu h100 hmax sched order sn rest hs hwf hh hfit
+      R.updateSelfHeartbeat.cs r hrc' hr now
+  refine ⟨delta, { R.updateSelfHeartbeat with cs := rc' }, { callbacks := if reset then 1 else 0, events := evs }, hd, ?_, ?_, r', hr', hlt⟩
+  · simp only [processMessage, processDelta, happ]
+  · intro i s hi hs
+    exact hmono i s (by rw [nodeState_updateSelfHeartbeat_ne R i hi]; exact hs)
+
+
+
+theorem trySetHeartbeat_frontier (s : NodeState) (hb : Nat) :
+    (s.trySetHeartbeat hb).1.lastGc = s.lastGc ∧ (s.trySetHeartbeat hb).1.maxVersion = s.maxVersion := by
+  unfold trySetHeartbeat
+  split
+  · exact ⟨rfl, rfl⟩
+  · split <;> exact ⟨rfl, rfl⟩
+
+theorem initIfAbsent_of_some (cs : ClusterState) (i : Id) (s : NodeState) (h : cs.nodeState i = some s) :
+    cs.initIfAbsent i = cs := by
+  unfold ClusterState.initIfAbsent; rw [h]
+
+theorem reportBase_nodeState_self (n : Node) (i : Id) (hb : Nat) (s : NodeState) (h : n.cs.nodeState i = some s) :
+    (n.reportBase i hb).nodeState i = some s := by
+  unfold Node.reportBase
+  split
+  · split
+    · rw [initIfAbsent_of_some _ _ _ h]; exact h
+    · exact h
+  · rw [initIfAbsent_of_some _ _ _ h]; exact h
+
+/-- a heartbeat report never changes the frontier of a copy that exists -/
+theorem reportHeartbeat_keeps (n : Node) (i : Id) (hb now : Nat) (j : Id) (s : NodeState)
+    (h : n.cs.nodeState j = some s) :
+    ∃ s', (n.reportHeartbeat i hb now).cs.nodeState j = some s' ∧ s'.lastGc = s.lastGc ∧ s'.maxVersion = s.maxVersion := by
+  unfold Node.reportHeartbeat
+  split
+  · exact ⟨s, h, rfl, rfl⟩
+  · by_cases hji : j = i
+    · subst hji
+      rw [reportBase_nodeState_self n j hb s h]
+      simp only
+      refine ⟨(s.trySetHeartbeat hb).1, nodeState_setNode_self' _ _ _, ?_⟩
+      exact trySetHeartbeat_frontier s hb
+    · cases hb' : (n.reportBase i hb).nodeState i with
+      | none => exact ⟨s, h, rfl, rfl⟩
+      | some si =>
+        simp only
+        refine ⟨s, ?_, rfl, rfl⟩
+        rw [nodeState_setNode_ne' _ _ _ _ hji, reportBase_nodeState_ne n i j hb hji]; exact h
+
+
+theorem reportHeartbeatsInDigest_keeps (d : Digest) (now : Nat) : ∀ (n : Node) (j : Id) (s : NodeState),
+    n.cs.nodeState j = some s →
+    ∃ s', (n.reportHeartbeatsInDigest d now).cs.nodeState j = some s' ∧ s'.lastGc = s.lastGc ∧ s'.maxVersion = s.maxVersion := by
+  induction d with
+  | nil => intro n j s h; exact ⟨s, h, rfl, rfl⟩
+  | cons p rest ih =>
+    intro n j s h
+    obtain ⟨s1, h1, g1, m1⟩ := reportHeartbeat_keeps n p.1 p.2.heartbeat now j s h
+    obtain ⟨s2, h2, g2, m2⟩ := ih (n.reportHeartbeat p.1 p.2.heartbeat now) j s1 h1
+    refine ⟨s2, ?_, by omega, by omega⟩
+    simpa [Node.reportHeartbeatsInDigest] using h2
+
+/-- **C01 (the SYN-ACK step, end to end).** The initiator processes the peer's SYN-ACK with
+`process_message`: heartbeat reports for the peer's digest, then the peer's delta — computed by the real
+sender from the initiator's digest. The handler reaches the delta application without abort, no copy of
+another member has its frontier lowered, and the initiator's copy of the first stale member strictly
+advances (the rest of the handler only computes the ACK). -/
+theorem C01_synack_advances_initiator (C : Compressor) (cs : ClusterState) (hcs : WFCluster cs)
+    (digest : Digest) (mtu : Nat) (h100 : 100 ≤ mtu) (hmax : mtu ≤ 65539) (sched order : List Id)
+    (sn : StaleNode) (rest : List StaleNode)
+    (hs : sortStale order (staleNodes cs digest sched) = sn :: rest)
+    (hwf : WFOp (.node sn.id sn.state.lastGc sn.fromExcl))
+    (hh : opLen (.node sn.id sn.state.lastGc sn.fromExcl) ≤ 16384)
+    (hfit : opLen (.node sn.id sn.state.lastGc sn.fromExcl) + firstItemLen sn + 7 ≤ mtu)
+    (R : Node) (r : NodeState) (hne : sn.id ≠ R.cfg.selfId) (hrc : R.cs.nodeState sn.id = some r)
+    (hr : digestEntry sn.id digest = (r.lastGc, r.maxVersion)) (now : Nat) (peerDigest : Digest) :
+    ∃ delta R' cb evs, computeDelta C cs digest mtu sched order = .ok delta ∧
+      ((R.updateSelfHeartbeat.reportHeartbeatsInDigest peerDigest now).processDelta delta now) = .ok (R', cb, evs) ∧
+      (∀ i s, i ≠ R.cfg.selfId → R.cs.nodeState i = some s →
+          ∃ s', R'.cs.nodeState i = some s' ∧ frontierLe s.frontier s'.frontier) ∧
+      ∃ r', R'.cs.nodeState sn.id = some r' ∧ frontierLt r.frontier r'.frontier := by
+  have hrc1 : R.updateSelfHeartbeat.cs.nodeState sn.id = some r := by
+    rw [nodeState_updateSelfHeartbeat_ne R sn.id hne]; exact hrc
+  obtain ⟨r2, hrc2, g2, m2⟩ := reportHeartbeatsInDigest_keeps peerDigest now R.updateSelfHeartbeat sn.id r hrc1
+  have hr2 : digestEntry sn.id digest = (r2.lastGc, r2.maxVersion) := by rw [hr, g2, m2]
+  obtain ⟨delta, rc', reset, evs, hd, happ, hmono, _, r', hr', hlt⟩ :=
+    C01_reply_advances_receiver C cs hcs digest mtu h100 hmax sched order sn rest hs hwf hh hfit
+      (R.updateSelfHeartbeat.reportHeartbeatsInDigest peerDigest now).cs r2 hrc2 hr2 now
+  refine ⟨delta, { (R.updateSelfHeartbeat.reportHeartbeatsInDigest peerDigest now) with cs := rc' },
+    (if reset then 1 else 0), evs, hd, ?_, ?_, r', hr', ?_⟩
+  · simp only [processDelta, happ]
+  · intro i s hi hs
+    have h1 : R.updateSelfHeartbeat.cs.nodeState i = some s := by
+      rw [nodeState_updateSelfHeartbeat_ne R i hi]; exact hs
+    obtain ⟨s2, hs2, gg, mm⟩ := reportHeartbeatsInDigest_keeps peerDigest now R.updateSelfHeartbeat i s h1
+    obtain ⟨s', hs', hle⟩ := hmono i s2 hs2
+    refine ⟨s', hs', ?_⟩
+    unfold frontierLe NodeState.frontier at *
+    simp only at *
+    omega
+  · unfold frontierLt NodeState.frontier at *
+    simp only at *
+    omega
+
+
+
+theorem AL.lookup_mapVal {κ α β : Type} [DecidableEq κ] (f : κ → α → β) (k : κ) (m : List (κ × α)) :
+    AL.lookup k (m.map (fun p => (p.1, f p.1 p.2))) = (AL.lookup k m).map (f k) := by
+  induction m with
+  | nil => simp [AL.lookup]
+  | cons e t ih =>
+    obtain ⟨k', v'⟩ := e
+    simp only [List.map_cons, AL.lookup]
+    by_cases hk : k = k'
+    · subst hk; simp
+    · simp [hk, ih]
+
+/-- what a node's own digest says about a member it holds and has not quarantined is that copy's frontier -/
+theorem digestEntry_computeDigest (cs : ClusterState) (sched : List Id) (i : Id) (r : NodeState)
+    (h : cs.nodeState i = some r) (hs : sched.contains i = false) :
+    digestEntry i (cs.computeDigest sched) = (r.lastGc, r.maxVersion) := by
+  unfold digestEntry ClusterState.computeDigest
+  have := AL.lookup_mapVal (fun _ s => nodeDigest s) i (cs.nodes.filter (fun p => !sched.contains p.1))
+  rw [this, AL.lookup_filter_key (fun k => !sched.contains k) i cs.nodes]
+  simp only [hs, Bool.not_false, if_true]
+  unfold ClusterState.nodeState at h
+  rw [h]
+  rfl
+
+
+
+/-- **C01 (a whole handshake, end to end).** `R` initiates: its SYN carries its own digest (every
+member it holds and has not quarantined, `schedR`). The peer computes its SYN-ACK delta from that
+digest with the real sender. If the first member in the peer's staleness order is one `R` holds and
+has *not* quarantined — the KF-3 situation is exactly the failure of this hypothesis — and its header
+plus one op fit the budget, then `R`'s handler applies the SYN-ACK without abort, lowers no other
+copy, and strictly advances its copy of that member. No assumption relates the two nodes' states. -/
+theorem C01_handshake_end_to_end (C : Compressor) (cs : ClusterState) (hcs : WFCluster cs)
+    (R : Node) (schedR : List Id)
+    (mtu : Nat) (h100 : 100 ≤ mtu) (hmax : mtu ≤ 65539) (sched order : List Id)
+    (sn : StaleNode) (rest : List StaleNode)
+    (hs : sortStale order (staleNodes cs (R.cs.computeDigest schedR) sched) = sn :: rest)
+    (hwf : WFOp (.node sn.id sn.state.lastGc sn.fromExcl))
+    (hh : opLen (.node sn.id sn.state.lastGc sn.fromExcl) ≤ 16384)
+    (hfit : opLen (.node sn.id sn.state.lastGc sn.fromExcl) + firstItemLen sn + 7 ≤ mtu)
+    (r : NodeState) (hne : sn.id ≠ R.cfg.selfId) (hrc : R.cs.nodeState sn.id = some r)
+    (hq : schedR.contains sn.id = false) (now : Nat) (peerDigest : Digest) :
+    ∃ delta R' cb evs, computeDelta C cs (R.cs.computeDigest schedR) mtu sched order = .ok delta ∧
+      ((R.updateSelfHeartbeat.reportHeartbeatsInDigest peerDigest now).processDelta delta now) = .ok (R', cb, evs) ∧
+      (∀ i s, i ≠ R.cfg.selfId → R.cs.nodeState i = some s →
+          ∃ s', R'.cs.nodeState i = some s' ∧ frontierLe s.frontier s'.frontier) ∧
+      ∃ r', R'.cs.nodeState sn.id = some r' ∧ frontierLt r.frontier r'.frontier :=
+  C01_synack_advances_initiator C cs hcs (R.cs.computeDigest schedR) mtu h100 hmax sched order sn rest hs hwf hh hfit
+    R r hne hrc (digestEntry_computeDigest R.cs schedR sn.id r hrc hq) now peerDigest
+
+
+end EndToEnd
 
 end Chitchat
